@@ -211,12 +211,82 @@ func mainCase(w *wire.Writer, rng *rand.Rand, in *annot.Input, ntimes int, class
 	return c, o, obs
 }
 
+// boundaryHistory: two or three parent versions and one or two children whose versions sit exactly
+// on the decision boundaries: the parent's own stamp, the next parent's stamp minus the threshold,
+// plus/minus one nanosecond or one threshold.
+func boundaryHistory(rng *rand.Rand) *annot.Input {
+	in := &annot.Input{IsRel: rng.Intn(4) == 0}
+	in.Threshold = []time.Duration{0, time.Second, 30 * time.Minute}[rng.Intn(3)]
+	commit := rng.Intn(2) == 0
+	base := osm.CommitInfoStart.Add(-3000 * 24 * time.Hour)
+	in.Regime = "old"
+	if commit {
+		base = osm.CommitInfoStart.Add(50 * 24 * time.Hour)
+		in.Regime = "commit"
+	}
+	mk := func(t time.Time) (time.Time, *time.Time) {
+		if commit {
+			c := t
+			return t, &c
+		}
+		return t, nil
+	}
+	np := 2 + rng.Intn(2)
+	var pt []time.Time
+	for i := 0; i < np; i++ {
+		pt = append(pt, base.Add(time.Duration(i+1)*5*time.Hour))
+	}
+	nch := 1 + rng.Intn(2)
+	var fids []osm.FeatureID
+	for i := 0; i < nch; i++ {
+		fid := osm.NodeID(100 + i).FeatureID()
+		fids = append(fids, fid)
+		h := annot.Hist{FID: fid}
+		ts, com := mk(base)
+		h.Versions = append(h.Versions, annot.Hver{Version: 1, Changeset: 1, Timestamp: ts, Committed: com, Lat: 1, Lon: float64(i), Visible: true})
+		// candidate stamps on the boundaries, increasing
+		var cand []time.Time
+		for _, p := range pt {
+			for _, d := range []time.Duration{-in.Threshold - 1, -in.Threshold, -in.Threshold + 1, -1, 0, 1, in.Threshold - 1, in.Threshold, in.Threshold + 1} {
+				cand = append(cand, p.Add(d))
+			}
+		}
+		sort.Slice(cand, func(a, b int) bool { return cand[a].Before(cand[b]) })
+		v := 2
+		for _, t := range cand {
+			if rng.Intn(4) != 0 || !t.After(base) {
+				continue
+			}
+			ts, com := mk(t)
+			cs := int64(10 + v)
+			if rng.Intn(3) == 0 {
+				cs = int64(500 + rng.Intn(np)) // a parent's changeset
+			}
+			h.Versions = append(h.Versions, annot.Hver{Version: v, Changeset: cs, Timestamp: ts, Committed: com, Lat: float64(v), Lon: float64(i), Visible: true})
+			v++
+		}
+		in.Hists = append(in.Hists, h)
+	}
+	for i := 0; i < np; i++ {
+		ts, com := mk(pt[i])
+		p := annot.Parent{Changeset: int64(500 + i), Visible: true, Timestamp: ts, Committed: com}
+		for _, f := range fids {
+			if rng.Intn(5) != 0 || len(p.Refs) == 0 {
+				p.Refs = append(p.Refs, annot.Ref{FID: f})
+			}
+		}
+		in.Parents = append(in.Parents, p)
+	}
+	in.ComputeReverse()
+	return in
+}
+
 func main() {
 	a := wire.ParseArgs()
 	rng := wire.Rng(a.Seed)
 	w := wire.NewWriter("C11", a.Seed, a.Tier)
-	w.Rule = "edit histories: 1-5 parent versions, 1-6 children (repeats, entering, leaving), up to 8 versions per child placed before/between/after/in the same second as parent versions, deletions and undeletions, regimes commit / old / nocommit / mixed, thresholds 0,1s,30min,10000h,random, child filters with pre-annotated references, ignore options, missing or failing histories; half of the histories are consistent (success expected). For every visible parent of a successful annotation ApplyUpdatesUpTo(t) is observed at up to 8 (quick) / 16 (thorough) times drawn from all event times, +-1ns, +-threshold (window times first). Non-trivial = error outcome or at least one update; distinct = distinct token streams."
-	n, ntimes := 260, 8
+	w.Rule = "edit histories: 1-5 parent versions, 1-6 children (repeats, entering, leaving), up to 8 versions per child placed before/between/after/in the same second as parent versions, deletions and undeletions, regimes commit / old / nocommit / mixed, thresholds 0,1s,30min,10000h,random, plus a boundary family (child versions stamped exactly at a parent's stamp, at the next parent's stamp minus the threshold, +-1ns, +-threshold), child filters with pre-annotated references, ignore options, missing or failing histories; half of the histories are consistent (success expected). For every visible parent of a successful annotation ApplyUpdatesUpTo(t) is observed at up to 8 (quick) / 16 (thorough) times drawn from all event times, +-1ns, +-threshold (window times first). Non-trivial = error outcome or at least one update; distinct = distinct token streams."
+	n, ntimes := 220, 8
 	if a.Tier == "thorough" {
 		n, ntimes = 6000, 16
 	}
@@ -232,6 +302,10 @@ func main() {
 		if canIn == nil && o.Status == 0 && len(obs) > 0 && len(o.Updates[0]) > 0 && len(obs[0].refs) > 0 {
 			canIn, canO, canObs = in, o, obs
 		}
+	}
+	for i := 0; i < n/4; i++ {
+		c, _, _ := mainCase(w, rng, boundaryHistory(rng), ntimes+4, "boundary")
+		w.Add(c)
 	}
 	if canIn == nil {
 		panic("no successful history with updates generated")
